@@ -36,8 +36,18 @@ Actions of a script::
 
     ["send", v]   ["throw", exc_name, arg, as_class]   ["close"]
 
-Action 0 is applied to the un-started generator (normally ``["send", null]``).  When the script is
-exhausted and the generator is still alive the driver keeps sending ``None`` (bounded by ``cap``).
+``["send", "auto"]`` lets ``Driver.responder(msg)`` (a scripted engine) choose the value.  Action 0 is
+applied to the un-started generator (normally ``["send", null]``).  When the script is exhausted and
+the generator is still alive the driver keeps sending ``None`` / the responder's answers (bounded by
+``cap``; hitting the cap is recorded as outcome ``["runaway"]``).
+
+Observation of a run = ``observation(env, driver)``: the driver trace ``[[action, outcome], ...]`` with
+outcomes ``["yield", mid] | ["return", v] | ["raise", eid] | ["closed"]`` plus the per-program logs
+(``start``, ``yield``, ``recv``, ``exc_at``, ``caught``, ``else``, ``finally``, ``subret``, ``raise``).  Messages are
+identified by object identity (``[program, index]``) or, for messages made by wrapper code, by
+structure (``["foreign", command, obj, args, kwargs, run]``); exceptions by order of first observation,
+type and args (the ``GeneratorExit`` family is normalised to one token, because ``close()`` and the
+wrappers make their own instances and turn a thrown ``PlanHalt`` into ``close()`` of inner plans).
 """
 
 from __future__ import annotations
@@ -295,6 +305,12 @@ class ProgCtx:
     def subret(self, nid, v):
         self.log.append(["subret", nid, self.env.val(v)])
 
+    def end_raise(self, e):
+        self.log.append(["end", "raise", self.env.eid(e)])
+
+    def end_return(self, v):
+        self.log.append(["end", "return", self.env.val(v)])
+
     def mkexc(self, name, arg):
         e = EXC[name](arg)
         self.log.append(["raise", self.env.eid(e)])
@@ -391,11 +407,20 @@ class _Emit:
 def _compile_cached(prog_json):
     prog = json.loads(prog_json)
     em = _Emit()
-    em.w(0, "def _top(c, P, K, X):")
+    em.w(0, "def _body(c, P, K, X):")
     em.w(1, "if False:")
     em.w(2, "yield")
-    em.w(1, "c.begin()")
     em.node(prog["body"], 1, [])
+    # thin outer layer: logs how the program ended (return / exception / GeneratorExit)
+    em.w(0, "def _top(c, P, K, X):")
+    em.w(1, "c.begin()")
+    em.w(1, "try:")
+    em.w(2, "_v = yield from _body(c, P, K, X)")
+    em.w(1, "except BaseException as _e:")
+    em.w(2, "c.end_raise(_e)")
+    em.w(2, "raise")
+    em.w(1, "c.end_return(_v)")
+    em.w(1, "return _v")
     src = "\n".join(em.lines) + "\n"
     code = compile(src, "<plan-program>", "exec")
     return code, em.consts, prog.get("pool", []), src
@@ -700,7 +725,7 @@ def misbehaved_on_genexit(logs):
         for e in log:
             if e[0] == "exc_at" and e[2] == ["GeneratorExit*"]:
                 hit = True
-            elif hit and e[0] in ("yield", "raise"):
+            elif hit and (e[0] in ("yield", "raise") or (e[0] == "end" and e[1] == "raise" and e[2] != ["GeneratorExit*"])):
                 bad.append(name)
                 break
     return bad
